@@ -294,6 +294,11 @@ def gen_op(rng, st):
         if 'species' in oth and len(oth['species']) > 1:
             oth['species'] = oth['species'][1:] + oth['species'][:1]
         return {'op': 'swap_under', 'spec': oth, 'how': rng.choice(['replace', 'chdir'])}
+    if rng.random() < 0.06:
+        # readers also accept an open file object, which they only borrow: it is
+        # handed to one reader after another (earlier readers dropped and collected)
+        return {'op': 'fileobj', 'order': rng.choice(['m', 'r', 'rr', 'mr', 'rm', 'rrm']),
+                'collect': rng.random() < 0.7}
     if rng.random() < 0.08:
         # readers accept a path, a file object or a RecordFile; here a RecordFile
         # that was already used (advanced by some records) is handed to a new reader
@@ -811,6 +816,53 @@ def _apply(st, op):
             viol('readers-disagree', 'record reader built on a used RecordFile handle: time '
                  'flags %s, memmap %s' % (gt, times_of('m', m, fmt)),
                  what='tflag-shared-handle', family='r')
+    elif o == 'fileobj':
+        from PseudoNetCDF.camxfiles import Memmaps, Readers
+        fh = open(path, 'rb')
+        w.fault('reader_built_on_borrowed_file_object')
+        try:
+            for i, fam in enumerate(op['order']):
+                mod = Memmaps if fam == 'm' else Readers
+                cls = getattr(mod, fmt)
+                try:
+                    def mk():
+                        f2 = cls(fh) if fmt == 'uamiv' else cls(fh, spec['ny'], spec['nx'])
+                        return {k: np.array(f2.variables[k][...]) for k in data_keys(f2)}
+                    got, _ = _guard(mk)
+                except Timeout:
+                    viol('reader-does-not-terminate', 'reader on a borrowed file object',
+                         family=fam)
+                except BaseException as e:
+                    if i == 0:
+                        # this family does not take file objects for this format
+                        obs[fam] = 'not accepted: ' + type(e).__name__
+                        continue
+                    # the same object was accepted a moment ago: a reader that
+                    # borrowed it must not have closed or consumed it
+                    if fh.closed:
+                        viol('readers-disagree',
+                             'an open file object handed to a %s reader was closed by an earlier '
+                             'reader that had only borrowed it (%s: %s)' % (
+                                 {'m': 'memmap', 'r': 'record'}[fam], type(e).__name__, e),
+                             what='borrowed-handle-closed', family=fam)
+                    obs[fam] = 'raised ' + type(e).__name__
+                    continue
+                ref = fresh(fam)
+                for k, a in got.items():
+                    if k in ref.variables.keys() and not squeeze_eq(a, np.array(ref.variables[k][...])):
+                        viol('readers-disagree',
+                             '%s reader built on an open file object (reader %d on that object): %s '
+                             'differs from the same family opened by path' % (
+                                 {'m': 'memmap', 'r': 'record'}[fam], i + 1, k),
+                             what='data-file-object', family=fam)
+                got = None
+                if op.get('collect'):
+                    seams.GC.collect(2)
+        finally:
+            try:
+                fh.close()
+            except BaseException:
+                pass
     elif o == 'swap_under':
         if deviating(fmt, spec, path) != 'none':
             # only files both fresh readers present as written (the recorded
